@@ -162,8 +162,8 @@ struct Res {
     codes: Vec<String>,
     /// size of the produced asset (0 for reads)
     size: usize,
-    /// digest of the normalised report
-    report: u64,
+    /// the normalised report (JSON text)
+    report: String,
     /// digest of the produced asset with the manifest store removed (0 for reads)
     content: u64,
 }
@@ -185,21 +185,115 @@ impl Res {
             "none"
         }
     }
+    /// Short description for messages: everything but the report text, plus the first differing report paths.
+    fn brief(&self) -> String {
+        format!("{{state {} codes {:?} size {} content {:016x}}}", self.state, self.codes, self.size, self.content)
+    }
+    fn report_diff(&self, other: &Res) -> String {
+        let a: serde_json::Value = serde_json::from_str(&self.report).unwrap_or(serde_json::Value::Null);
+        let b: serde_json::Value = serde_json::from_str(&other.report).unwrap_or(serde_json::Value::Null);
+        let mut out = vec![];
+        json_diff("", &a, &b, &mut out);
+        out.truncate(6);
+        out.join("; ")
+    }
+}
+
+fn json_diff(path: &str, a: &serde_json::Value, b: &serde_json::Value, out: &mut Vec<String>) {
+    use serde_json::Value::*;
+    if out.len() > 8 || a == b {
+        return;
+    }
+    match (a, b) {
+        (Object(x), Object(y)) => {
+            for (k, v) in x {
+                match y.get(k) {
+                    Some(w) => json_diff(&format!("{path}/{k}"), v, w, out),
+                    None => out.push(format!("{path}/{k} only in faulted/chunked run")),
+                }
+            }
+            for k in y.keys() {
+                if !x.contains_key(k) {
+                    out.push(format!("{path}/{k} missing"));
+                }
+            }
+        }
+        (Array(x), Array(y)) if x.len() == y.len() => {
+            for (i, (v, w)) in x.iter().zip(y).enumerate() {
+                json_diff(&format!("{path}/{i}"), v, w, out);
+            }
+        }
+        _ => {
+            let short = |v: &serde_json::Value| {
+                let mut s = v.to_string();
+                if s.len() > 80 {
+                    s.truncate(80);
+                    s.push('…');
+                }
+                s
+            };
+            out.push(format!("{path}: {} vs fault-free {}", short(a), short(b)));
+        }
+    }
 }
 
 fn res_of_output(format: &str, out: &[u8]) -> Res {
     let (state, codes, report) = match sdk::read(format, out) {
         Ok(r) => {
             let v = sdk::verdict(&r);
-            (v.state, v.codes, vh::digest(&sdk::report_cross_run(&r).to_string()))
+            let mut codes: Vec<String> = v.codes.iter().map(|c| norm_urns(c)).collect();
+            codes.sort();
+            (v.state, codes, canon(&sdk::report_cross_run(&r)))
         }
-        Err(e) => (format!("Unreadable:{}", error_variant(&e)), vec![], 0),
+        Err(e) => (format!("Unreadable:{}", error_variant(&e)), vec![], String::new()),
     };
     let content = match c2pa::verif_hooks::remove_manifest(format, out) {
         Ok(stripped) => vh::digest(&stripped),
         Err(e) => vh::digest(&format!("strip-error:{}", error_variant(&e))),
     };
     Res { state, codes, size: out.len(), report, content }
+}
+
+/// Canonical text of a JSON value: object keys sorted (the SDK's maps are HashMaps), manifest URNs renamed
+/// in order of first appearance.
+fn canon(v: &serde_json::Value) -> String {
+    fn sort(v: &serde_json::Value) -> serde_json::Value {
+        match v {
+            serde_json::Value::Object(m) => {
+                let mut keys: Vec<&String> = m.keys().collect();
+                keys.sort();
+                let mut out = serde_json::Map::new();
+                for k in keys {
+                    out.insert(k.clone(), sort(&m[k]));
+                }
+                serde_json::Value::Object(out)
+            }
+            serde_json::Value::Array(a) => serde_json::Value::Array(a.iter().map(sort).collect()),
+            other => other.clone(),
+        }
+    }
+    sort(v).to_string()
+}
+
+/// Replace every `urn:c2pa:<uuid>` / `urn:uuid:<uuid>` by a placeholder (the label of a freshly signed manifest is random).
+fn norm_urns(s: &str) -> String {
+    let mut out = String::with_capacity(s.len());
+    let mut rest = s;
+    loop {
+        let pos = match (rest.find("urn:c2pa:"), rest.find("urn:uuid:")) {
+            (Some(a), Some(b)) => a.min(b),
+            (Some(a), None) => a,
+            (None, Some(b)) => b,
+            (None, None) => break,
+        };
+        out.push_str(&rest[..pos]);
+        out.push_str("urn:X");
+        let tail = &rest[pos + 9..];
+        let n = tail.find(|c: char| !(c.is_ascii_hexdigit() || c == '-')).unwrap_or(tail.len());
+        rest = &tail[n..];
+    }
+    out.push_str(rest);
+    out
 }
 
 fn error_variant(e: &c2pa::Error) -> String {
@@ -244,7 +338,7 @@ fn exec(op: &IoOp, src_w: &Wrap, dst_w: &Wrap, selftest: bool) -> Exec {
                 stats = st;
                 let r = Reader::from_context(sdk::context()).with_stream(&op.format, s)?;
                 let v = sdk::verdict(&r);
-                Ok(Res { state: v.state, codes: v.codes, size: 0, report: vh::digest(&sdk::report_same_bytes(&r).to_string()), content: 0 })
+                Ok(Res { state: v.state, codes: v.codes, size: 0, report: canon(&sdk::report_same_bytes(&r)), content: 0 })
             }
             "ingredient" => {
                 let (mut s, st) = wrap(Shared::new(a.to_vec()), src_w, selftest);
@@ -268,7 +362,7 @@ fn exec(op: &IoOp, src_w: &Wrap, dst_w: &Wrap, selftest: bool) -> Exec {
                 codes.sort();
                 let mut v = serde_json::to_value(&*ing).unwrap_or(serde_json::Value::Null);
                 sdk::strip_keys(&mut v, &["validation_time", "validationTime"]);
-                Ok(Res { state, codes, size: ing.manifest_data().map(|m| m.len()).unwrap_or(0), report: vh::digest(&v.to_string()), content: 0 })
+                Ok(Res { state, codes, size: ing.manifest_data().map(|m| m.len()).unwrap_or(0), report: canon(&v), content: 0 })
             }
             "hashflow" => {
                 // placeholder -> embed -> update_hash_from_stream(wrapped stream) -> sign_embeddable -> patch
@@ -314,7 +408,7 @@ fn reference(op: &IoOp) -> Result<Res, String> {
             if a == b {
                 Ok(a)
             } else {
-                Err(format!("two plain runs differ in {} ({a:?} vs {b:?})", a.diff(&b)))
+                Err(format!("two plain runs differ in {} ({} vs {}) [{}]", a.diff(&b), a.brief(), b.brief(), a.report_diff(&b)))
             }
         }
         (Ok(Err(e)), _) | (_, Ok(Err(e))) => Err(format!("plain run failed: {e:?}")),
@@ -373,7 +467,7 @@ fn judge_chunk(run: &Run, c: &ChunkCase, selftest: bool) -> CaseResult {
             } else {
                 Err(Fail::new(
                     format!("C35:chunked-{}-{}-{}-differs", c.op.kind, c.target, got.diff(&want)),
-                    format!("{what}: result {got:?} differs from the plain-cursor result {want:?}"),
+                    format!("{what}: result {} differs in {} from the plain-cursor result {} [{}]", got.brief(), got.diff(&want), want.brief(), got.report_diff(&want)),
                 ))
             }
         }
@@ -454,10 +548,10 @@ fn judge_fault(run: &Run, c: &FaultCase, selftest: bool) -> CaseResult {
                 run.count("outcome_short_read_signed_truncated_view");
                 return Ok(());
             }
-            let fault = if c.plan.kind == FaultKind::ShortZero { format!("zero-{on}") } else { format!("{on}-{}", c.plan.kind.name()) };
+            let fault = if c.plan.kind == FaultKind::ShortZero { format!("zero-{on}") } else { format!("{on}-error") };
             Err(Fail::new(
                 format!("C35:{}-{}-{fault}-hidden-ok-{class}", c.op.kind, c.target),
-                format!("{what}: the operation returned Ok with {got:?} (differs in {} from the fault-free {want:?})", got.diff(&want)),
+                format!("{what}: the operation returned Ok with {} (differs in {} from the fault-free {}) [{}]", got.brief(), got.diff(&want), want.brief(), got.report_diff(&want)),
             ))
         }
     }
@@ -539,7 +633,7 @@ fn main() {
 
     // references (also a determinism check of the comparison itself)
     let bad: Mutex<Vec<String>> = Mutex::new(vec![]);
-    let next = std::sync::atomic::AtomicUsize::new(0);
+    let next = std::sync::atomic::AtomicUsize::new(if run.replay.is_some() { usize::MAX / 2 } else { 0 });
     std::thread::scope(|s| {
         for _ in 0..8 {
             s.spawn(|| loop {
@@ -596,7 +690,7 @@ fn main() {
     let mut fcases = vec![];
     let (all_upto, sample) = if quick { (300u64, 24u64) } else { (4000u64, 400u64) };
     let mut planned: Vec<(IoOp, &str, u64)> = vec![];
-    for op in &ops {
+    for op in ops.iter().filter(|_| run.replay.is_none()) {
         let targets: &[&str] = if op.kind == "sign" { &["source", "dest"] } else { &["source"] };
         for t in targets {
             match op_count(op, t) {
